@@ -2,7 +2,7 @@
    This file holds ONLY the pinned statements, the closing theorems, non-vacuity examples and
    Print Assumptions.  Model: PV.Debugger.Proto (transition system of debugger/src/lib.rs: listener
    closure, thread body, run(), cont(), breakpoint edits, recv; park token, is_done flag, breakpoint
-   set under its mutex, bounded channel with blocking send, join).  `literal k` is the code as it is,
+   set under its Mutex (explicit acquire/release steps), bounded channel with blocking send, join).  `literal k` is the code as it is,
    `repaired k` the code with fixes/C17-1-final-send.patch, k the capacity of the channel (main.rs
    and the test-suite use 1).  A schedule is any list of thread ids whose steps are all enabled;
    `reachable cf cs b s` quantifies over ALL command histories cs (each run command carries the
@@ -98,6 +98,16 @@ Proof.
   - intros sch s'. apply all_schedules_finite.
 Qed.
 
+(* (4b) breakpoint edits never block, for EVERY version and capacity: whoever wants the guard of the
+   breakpoint set gets it at once or after one (always enabled) step of the holder; while the parse is
+   stopped at a breakpoint (parked / blocked in send) add_breakpoint and delete_breakpoint go through at once.
+   The Mutex is modelled with explicit acquire / release steps (PLock -> PHeld, CIdle -> EAdd/EDel). *)
+Definition C17_edits_never_block_statement : Prop :=
+  forall cf cs b s, reachable cf cs b s -> edits_never_block cf s.
+
+Theorem C17_breakpoint_edits_never_block : C17_edits_never_block_statement.
+Proof. exact mutex_never_blocks. Qed.
+
 (* (5) limitation: with a spurious return of park() a second event is delivered without any unpark *)
 Definition C17_spurious_statement : Prop :=
   exists cs b sch s, exec (spurious 2) (init cs b) sch = Some s /\
@@ -132,4 +142,5 @@ Print Assumptions C17_full_statement_refuted_literal.
 Print Assumptions C17_repaired_outside_known_class.
 Print Assumptions C17_full_statement_refuted_repaired.
 Print Assumptions C17_literal_safety.
+Print Assumptions C17_breakpoint_edits_never_block.
 Print Assumptions C17_spurious_wakeup_breaks_quiet.
